@@ -45,7 +45,15 @@ RULE = (
     "of the hist pairs) is ALSO run with its templates renamed to path-like names that "
     "share base names across directories (x, d1/x, d2/x ...; x/y alternating; d/x, d/d/x), "
     "cyclic graphs included; two more render modes with Environment(auto_escape=True) and "
-    "data d = <D&\"'> are added for ALL ctl cases, every 3rd case that uses block.super "
+    "blank = a block x (default body empty / whitespace / comment / assign / mixed / text; "
+    "required or not) as the SOLE non-blank content of an enclosing block, if, unless, for, "
+    "case/when, with, block>if, if>for (also whitespace-padded), placed in the root's top "
+    "level, in the root's outer block (also reached through block.super), in a mid or "
+    "leaf override body, with the override of x being absent / text / whitespace-only / "
+    "empty / super+text / in the mid template, rendered additionally with "
+    "suppress_blank_control_flow_blocks=False (sync/async x DictLoader/CachingDictLoader; "
+    "also every 32nd case of the other families); "
+    "data d = <D&\"'> are added for ALL ctl cases, every 4th case that uses block.super "
     "and every 16th case (block bodies always contain literal < and >); samp = seeded random chains of depth 2..8 (mostly <= 4) over 3 names with "
     "random nesting, if/for wrappers, block.super once/twice, variable reads.  "
     "distinct = hash(sources, entry, data); non-trivial = the rendered chain has depth >= 2 "
@@ -92,6 +100,12 @@ ASSUMPTIONS = [
     "is HTML-escaped exactly once, however many block.super levels it passes through",
     "templates are identified by their FULL names: path-like names sharing a base name "
     "are distinct templates, a cycle among them is still a cycle",
+    "blank-body suppression: with suppress_blank_control_flow_blocks=False every "
+    "whitespace character is compared exactly; with the default (True) the docs only say "
+    "that a body without template content or output statements does not render its "
+    "whitespace, so in the blank family the default-configuration modes are compared "
+    "with all whitespace removed from both sides (non-whitespace output of the "
+    "most-derived override must survive, which is what the property speaks about)",
     "a history step is judged against the model's answer for that entry alone (renders "
     "are independent); str(template) of a cached template must equal str of a fresh parse",
 ]
@@ -486,7 +500,7 @@ class Runner:
         self.case_no += 1
         n = self.case_no
         uses_super = any(it[0] == "s" for items in prog.values() for it, _ in M.walk(items))
-        self.esc_cur = family == "ctl" or n % 16 == 0 or (uses_super and n % 3 == 0)
+        self.esc_cur = family == "ctl" or n % 16 == 0 or (uses_super and n % 4 == 0)
         self.nosup_cur = family == "blank" or n % 32 == 0
         self.ws_cur = family == "blank"
         self.what_prefix = ""
@@ -1476,12 +1490,12 @@ FAMILIES = {"exh": _fam_exh, "ctl": _fam_ctl, "struct": _fam_struct, "cyc": _fam
 def shards(tier: str, seed: int) -> list[dict[str, Any]]:  # noqa: ARG001
     specs: list[dict[str, Any]] = []
     q = tier == "quick"
-    n = 9 if q else 16
+    n = 10 if q else 16
     for i in range(n):
         specs.append({"kind": "exh", "i": i, "n": n})
     n = 1 if q else 12
     for i in range(n):
-        specs.append({"kind": "samp", "i": i, "n": n, "count": 2000 if q else 30000})
+        specs.append({"kind": "samp", "i": i, "n": n, "count": 1600 if q else 30000})
     n = 2 if q else 8
     for i in range(n):
         specs.append({"kind": "entry", "i": i, "n": n})
